@@ -279,8 +279,11 @@ class Geometry(DaeObject):
                 if src == vert_ref and node.get('semantic') == 'VERTEX':
                     node.set('source', '#%s' % vert_src)
 
-        self.xmlnode.set('id', self.id)
-        self.xmlnode.set('name', self.name)
+        for attr, value in (('id', self.id), ('name', self.name)):
+            if value:
+                self.xmlnode.set(attr, value)
+            elif attr in self.xmlnode.attrib:
+                del self.xmlnode.attrib[attr]
 
         double_sided_node = self.xmlnode.find('.//%s//%s' % (tag('extra'), tag('double_sided')))
         if double_sided_node is None and self.double_sided:
